@@ -188,6 +188,8 @@ class VM:
     ):
         self.memory_limit = memory_limit
         self.time_limit = time_limit
+        # True for an interpreter that runs eval'd code on behalf of another one
+        self.nested = False
 
         self.stack: List[JSValue] = []
         self.call_stack: List[CallFrame] = []
@@ -203,9 +205,16 @@ class VM:
         # call_stack depth at entry of every native-driven callback in progress
         self._callback_bases: List[int] = []
 
-    def run(self, compiled: CompiledFunction) -> JSValue:
-        """Run compiled bytecode and return result."""
-        self.start_time = time.monotonic()
+    def run(
+        self, compiled: CompiledFunction, start_time: Optional[float] = None
+    ) -> JSValue:
+        """Run compiled bytecode and return result.
+
+        A VM that runs code on behalf of another one (indirect eval, the
+        Function constructor) passes the outer start_time so that both share
+        one deadline.
+        """
+        self.start_time = time.monotonic() if start_time is None else start_time
 
         # Create initial call frame
         frame = CallFrame(
@@ -2645,6 +2654,10 @@ class VM:
             self.stack.append(exc)
         else:
             # Uncaught exception
+            if self.nested:
+                # Code run for an outer interpreter (eval): the exception keeps
+                # its identity and is thrown again in the outer one
+                raise _ScriptThrow(exc)
             if isinstance(exc, str):
                 raise JSError(exc)
             elif isinstance(exc, JSObject):
